@@ -6,6 +6,7 @@ package main
 import (
 	"fmt"
 	"go/types"
+	"strings"
 
 	"golang.org/x/tools/go/ssa"
 )
@@ -19,6 +20,9 @@ func init() {
 	intrinsics = map[string]intrinsic{
 		"(" + modPrefix + "errs.Code).F": intrCodeF,
 		// sequential model: locks are no-ops (assumption: no other goroutine touches the state)
+		"regexp.Compile":          intrRegexpCompile,
+		"(*sync.Once).Do":         intrOnceDo,
+		"strconv.Quote":           intrStrconvQuote,
 		"(*sync.RWMutex).Lock":    intrNoop,
 		"(*sync.RWMutex).Unlock":  intrNoop,
 		"(*sync.RWMutex).RLock":   intrNoop,
@@ -46,4 +50,75 @@ func intrCodeF(f *Frame, callee *ssa.Function, args []Val, pc string, st *State,
 
 func intrNoop(f *Frame, callee *ssa.Function, args []Val, pc string, st *State, ins ssa.Value) (Val, string) {
 	return Val{}, pc
+}
+
+// regexp.Compile(expr) — assumed: succeeds exactly when validRE(expr) (uninterpreted); returns a fresh
+// non-nil *Regexp on success and nil with a non-nil error otherwise; never panics.
+func intrRegexpCompile(f *Frame, callee *ssa.Function, args []Val, pc string, st *State, ins ssa.Value) (Val, string) {
+	vc := f.vc
+	res := callee.Signature.Results()
+	ok := vc.define("validRE", "Bool", fmt.Sprintf("(validRE %s)", args[0].T))
+	r := f.newRef(st, "Regexp")
+	re := vc.define("re", "Int", fmt.Sprintf("(ite %s %s 0)", ok, r))
+	errv := vc.freshConst("reerr", "Iface")
+	vc.assert(fmt.Sprintf("(= (= (iface_tag %s) 0) %s)", errv, ok))
+	return Val{Tuple: []Val{{T: re, Typ: res.At(0).Type()}, {T: errv, Typ: res.At(1).Type()}}, Typ: res}, pc
+}
+
+// strconv.Quote(s) — assumed: returns a string of at least two bytes (the quotes); never panics.
+func intrStrconvQuote(f *Frame, callee *ssa.Function, args []Val, pc string, st *State, ins ssa.Value) (Val, string) {
+	vc := f.vc
+	r := vc.freshConst("quoted", "Str")
+	vc.assert(fmt.Sprintf("(>= (slen %s) 2)", r))
+	return Val{T: r, Typ: callee.Signature.Results().At(0).Type()}, pc
+}
+
+// onceComp names the ghost component holding the "done" flag of a sync.Once embedded at a field path of
+// a heap object; the key is the reference of the enclosing object.
+func onceComp(l *Loc) (comp string, key string, ok bool) {
+	var path []string
+	for l != nil {
+		switch l.Kind {
+		case LocField:
+			sty, name, _ := structOf(l.Base.Typ)
+			path = append([]string{name + "." + sty.Field(l.Field).Name()}, path...)
+			l = l.Base
+		case LocRef:
+			if len(path) == 0 {
+				return "Once.done *", l.Ref, true
+			}
+			return "Once.done " + strings.Join(path, "/"), l.Ref, true
+		default:
+			return "", "", false
+		}
+	}
+	return "", "", false
+}
+
+// (*sync.Once).Do(f) in the sequential model: if the Once has not fired, mark it and call f.
+func intrOnceDo(f *Frame, callee *ssa.Function, args []Val, pc string, st *State, ins ssa.Value) (Val, string) {
+	vc := f.vc
+	if args[0].Loc == nil {
+		unsup("sync.Once.Do on a Once that is not a field of a heap object")
+	}
+	comp, key, ok := onceComp(args[0].Loc)
+	if !ok {
+		unsup("sync.Once.Do: unsupported location of the Once")
+	}
+	c := vc.comp(st, comp, "(Array Int Bool)")
+	done := vc.define("once.done", "Bool", fmt.Sprintf("(select %s %s)", c, key))
+	// not yet fired: set the flag, run f
+	bst := st.clone()
+	f.noteCompSt(bst, comp)
+	bst.heap[comp] = vc.define("h", "(Array Int Bool)", fmt.Sprintf("(store %s %s true)", c, key))
+	bpc := vc.define("pc once", "Bool", and(pc, not(done)))
+	fv := args[1]
+	sig := fv.Typ.Underlying().(*types.Signature)
+	cc := &ssa.CallCommon{Value: nil}
+	_ = cc
+	_, npc := f.callFnValue(fv, sig, nil, bpc, bst, ins)
+	skip := vc.define("pc once.skip", "Bool", and(pc, done))
+	merged := vc.mergeStates([]string{npc, skip}, []*State{bst, st.clone()})
+	*st = *merged
+	return Val{}, vc.define("pc once.join", "Bool", or(npc, skip))
 }
